@@ -123,7 +123,7 @@ def check(s):
         s.ob("C09.4", con4, nz4.canon(sc[3]) == nz4.canon(want_xs),
              "the scanned rows are flat.batch_indices(self.batch_size, key=key) with flat = rollout_buffer.flatten_axes()", loc4,
              key="epoch-indices", detail=show(sc[3], maxlen=200), necessary_for="every epoch visits the data once under the epoch's own shuffle")
-        s.ob("C09.4", con4, sc[2] == ("tuple", (("param", "policy"), ("param", "opt_state"))), "the carry is (policy, opt_state)", loc4, key="epoch-carry",
+        s.ob("C09.4", con4, nz4.canon(sc[2]) == nz4.canon(("tuple", (("param", "policy"), ("param", "opt_state")))), "the carry is (policy, opt_state)", loc4, key="epoch-carry",
              detail=show(sc[2], maxlen=100))
         body = sc[1]
         if body is not None:
@@ -138,7 +138,7 @@ def check(s):
                 want_batch = ("call", ("attr", flat, "gather"), (("param", "$rows"),), ())
                 okb = (m.get("policy") == ("param", "$pol") and m.get("opt_state") == ("param", "$opt")
                        and nz4.canon(m.get("rollout_buffer", NONE)) == nz4.canon(want_batch)
-                       and out == ("tuple", (("tuple", (("item", tb[0], 0), ("item", tb[0], 1))), ("item", tb[0], 2))))
+                       and nz4.canon(out) == nz4.canon(("tuple", (("tuple", (("item", tb[0], 0), ("item", tb[0], 1))), ("item", tb[0], 2)))))
             s.ob("C09.4", con4, okb, "body: batch = flat.gather(row) (same flattened buffer the indices came from); carry' = train_batch's (policy, opt_state)",
                  loc4, key="epoch-body", detail=show(out, maxlen=300),
                  necessary_for="indices index the buffer they were computed for; the optimiser state threads through the minibatches")
@@ -164,7 +164,7 @@ def check(s):
                 m = bind_args(fte, te[0][2], te[0][3])
                 okb = (m.get("policy") == ("param", "$pol") and m.get("opt_state") == ("param", "$opt") and m.get("rollout_buffer") == ("param", "buffer")
                        and m.get("key") == ("param", "$k")
-                       and out == ("tuple", (("tuple", (("item", te[0], 0), ("item", te[0], 1))), ("item", te[0], 2))))
+                       and nz4.canon(out) == nz4.canon(("tuple", (("tuple", (("item", te[0], 0), ("item", te[0], 1))), ("item", te[0], 2)))))
             if not okb:
                 # the body does not call train_epoch literally (the flattening hoisted out of the loop, the epoch split into helpers): it
                 # must still compute what train_epoch(policy, opt_state, buffer, key=<scanned key>) computes - compared with train_epoch
